@@ -192,3 +192,42 @@ Proof. apply code_from_sound. Qed.
 
 Lemma holds_model cfg ops : ops_timed ops = true -> C08_holds cfg ops (run_obs cfg [] ops).
 Proof. intro H. apply prop_code_sound, prop_code_model, H. Qed.
+
+(* ------------------------------------------------------------------ completeness of the codes *)
+Lemma node_code_complete cfg n o : node_ok cfg n o -> node_code cfg n o = 0.
+Proof.
+  unfold node_code, node_ok. intros [Hu H]. rewrite Hu.
+  rewrite (list_eqb_refl Z.eqb) by apply Z.eqb_refl. cbn [negb].
+  destruct (spec_metric n) as [m|]; destruct (view_detail o) as [[[old fresh] gets]|]; try tauto.
+  destruct n as [x|]; [|tauto]. destruct H as (H1 & H2 & H3).
+  rewrite <- H1, <- H2, H3, sums_eqb_refl. cbn [negb].
+  now rewrite (list_eqb_refl ovec_eqb) by apply ovec_eqb_refl.
+Qed.
+
+Lemma nodes_code_complete cfg c ks view : nodes_ok cfg c ks view -> nodes_code cfg c ks view = 0.
+Proof.
+  revert view. induction ks as [|k ks IH]; intros [|o os]; cbn [nodes_code nodes_ok]; try tauto.
+  intros [H1 H2]. rewrite (node_code_complete _ _ _ H1). cbn [Z.eqb]. now apply IH.
+Qed.
+
+Lemma op_code_complete cfg c o r view : op_ok cfg c o r view -> op_code cfg c o r view = 0.
+Proof.
+  destruct o; cbn [op_code op_ok]; try (intros ->; reflexivity).
+  intro H.
+  destruct (variant_observed cfg nd p) eqn:Ev; cbn [andb]; [|reflexivity].
+  destruct (existsb (Z.eqb (nd_name nd)) universe) eqn:Eu; [|reflexivity].
+  apply existsb_exists in Eu. destruct Eu as (x & Hin & Hx). apply Z.eqb_eq in Hx. subst x.
+  rewrite <- (H eq_refl Hin). now rewrite Z.eqb_refl.
+Qed.
+
+Lemma code_from_complete cfg ops c obs : holds_from cfg c ops obs -> code_from cfg c ops obs = 0.
+Proof.
+  revert c obs. induction ops as [|o ops IH]; intros c [|[r view] obs]; cbn [code_from holds_from];
+    try tauto.
+  intros (H1 & H2 & H3).
+  rewrite (nodes_code_complete _ _ _ _ H1), (op_code_complete _ _ _ _ _ H2). cbn [Z.eqb negb].
+  now apply IH.
+Qed.
+
+Lemma prop_code_spec cfg ops obs : prop_code cfg ops obs = 0 <-> C08_holds cfg ops obs.
+Proof. split; [apply code_from_sound|apply code_from_complete]. Qed.
